@@ -20,7 +20,8 @@ def materialise(desc):
         sc = scenes.gen_scene(rng, big=k.get('big', False), anomalies=k.get('anom', False),
                               order=k.get('order'), nce=k.get('nce'), maxrows=k.get('maxrows'))
         prm = scenes.gen_prms(rng, sc, msa=k.get('msa', True), scaling=k.get('scaling', True),
-                              exclusion=k.get('exclusion', True), rich=k.get('rich', True))
+                              exclusion=k.get('exclusion', True), rich=k.get('rich', True),
+                              extreme=k.get('extreme', False))
     elif fam == 'flat':
         sc, prm = flat_okta_case(rng, k)
     elif fam == 'bimodal':
